@@ -48,6 +48,13 @@ func checkCloneDeepCopiesAccounts(c *core.Ctx) {
 					}
 				}
 			}
+			// an element-level copy helper is as good as the inline copy
+			if cl, _ := ir.CallOf(st.Val); cl != nil && ir.CalleeObj(cl) != nil {
+				switch ir.CalleeObj(cl).Name() {
+				case "Clone", "Copy", "DeepCopy":
+					fresh, copied = true, true
+				}
+			}
 			why := ""
 			if !fresh {
 				why = "the clone's element is " + st.Val.String() + ", not a freshly allocated copy: clone and source share the account object"
